@@ -87,6 +87,17 @@ CLAIMED = {
             BASE_NOTE + " Assumed: count < 2^61; callers do not hold the map's lock; float-derived thresholds are arbitrary (every Put is proved with and without growth); string == is value identity; hash.Hash for StringSet through its spec fold. "
             "Not covered: IntIntMap.Sort, Clone/HashCode/ToString of entries, ValueArray multiset equality. Three genuine deviations from the set/map model are known findings.",
             TECH),
+    "C09": ("proof",
+            "Eleven of the thirteen linked types (IntKey, LongKey, StringKey, IntInt, IntFloat, LongFloat, LongLong, StringInt, StringLong linked maps; Int and String linked sets), contracts generated from one hand-written template and verified per type: "
+            "representation = order list as a window ord[lo..hi) of a ghost index map with the header sentinel at both ends, per-bucket ghost cells, dictionary view ent: key -> entry; every public operation against the WHOLE view: "
+            "Get/ContainsKey/ContainsValue/GetLRU, remove, put in all four modes (existing key: in-place update with forced moves and no eviction; new key: placed at the stated end, eviction from the opposite end, size after the call <= max), "
+            "rehash (proved with loop-level ghost updates), clear, Put*/Remove* wrappers, first/last accessors, Size/IsEmpty/IsFull/SetMax, constructors for every capacity >= 0, enumerators and KeyArray in list order, ToString, Sort (no panic, the slice holds the window in order, representation restored); all nopanic. "
+            "LinkedMap and LinkedSet (user-defined Hash/Equals) at the order-list level only. Histories of any length follow by induction over the representation predicate.",
+            "DESIGN.md §4 C09, §10.4",
+            BASE_NOTE + " Assumed: sort.Sort only permutes its slice (so the ORDER after Sort is not derived), sync.Mutex model, fmt/bytes/container/list calls, string hashes through the postconditions of hash.HashStr/stringutil.HashCode, remainder by a variable divisor as an abstract function with its range facts (`absrem`), n < 2^60. "
+            "LinkedMap/LinkedSet: put/remove/clear are assumed frames, LinkedKey.Hash/Equals unconstrained, rehash/Get/Contains not under contract. Not under contract on any type: Add*/addNoOver, ToBytes/ToObject, SetNullValue, Unipoint, GetKeySet. "
+            "These contracts are private to package hmap: the codec layers keep their own trusted dictionary model. About 90 of 15500 obligations (in the put units) need the solver portfolio (1-50 s on a loaded machine).",
+            TECH),
     "C10": ("proof",
             "Lock discipline as ghost state held(mutex): for every exported method of every hash map/set, the linked list and both request queues (enumerated from go/types) "
             "govc proves Lock() is only called when not held (sync.Mutex is not re-entrant: self-deadlock), every access to a field written under the lock happens while it is held "
